@@ -35,6 +35,21 @@ CHECKS = {
             "order, and the written text must parse under an independent reference grammar.",
             "Trusted: reference .tns printer/parser inside mc/props/C16.py; only the listed mantissa patterns.",
             TECH_PRODUCT, "DESIGN.md §6 C16"),
+    "C06": ("For every set of <= 3 (thorough <= 4) non-zero cells, ALL k! stored orders of each operand are built as real "
+            "sptensors and ~180 operation instances (all operators with sparse/dense/scalar partners, reads, writes, "
+            "multilinear and structural operations, constructors consuming coordinate lists) are executed for every order "
+            "combination; the pass criterion is exactly one canonical outcome per (operand sets, operation) and a "
+            "well-formed sparse result (integer distinct in-range subscripts, one value each, nnz consistent, no explicit "
+            "zero after combining/filtering operations).",
+            "Trusted: the canonical observation (expanded array / mapping); correctness of the common outcome is C02/C03/C04's job. "
+            "The upstream-pinned stored zeros of sptensor/sptensor division are a recorded known finding.",
+            TECH_PRODUCT, "DESIGN.md §6 C06"),
+    "C15": ("symmetrize (both versions) and issymmetric (both versions, with/without details) are run on every shape of order "
+            "2-4 (thorough 5-6) with sizes 2-3 x every ordered selection of disjoint equal-size mode groups x six data families "
+            "incl. every single-cell perturbation of a symmetric tensor, and compared exactly with the explicit group average / "
+            "explicit invariance test; Kruskal symmetrize over ranks, weight signs and factor families.",
+            "Trusted: mc/refmodel.py symmetrize/is_symmetric (explicit permutation average); integer data (exact averages).",
+            TECH_PRODUCT, "DESIGN.md §6 C15"),
 }
 PENDING = {f"C{i:02d}": "check not built yet in this phase (planned, see DESIGN.md §6)" for i in range(1, 21) if f"C{i:02d}" not in CHECKS}
 NOT_APPLICABLE = {}
